@@ -98,9 +98,10 @@ const (
 	bhError
 	bhSlow
 	bhBlock
+	bhInstant // returns at once, without ever parking (the usual case in production: an in-memory publish)
 )
 
-var bhNames = []string{"ok", "error", "slow", "block"}
+var bhNames = []string{"ok", "error", "slow", "block", "instant"}
 
 type notifySim struct {
 	r     *Run
@@ -108,6 +109,14 @@ type notifySim struct {
 	mu    sync.Mutex
 	got   map[string][]map[string]any // endpoint -> delivered events
 	behav map[string]int
+	// what the websocket publisher was handed: like centrifuge's memory broker (channel history, recovery after a
+	// reconnect) it keeps the slice itself, not a copy
+	retained []retainedPub
+}
+
+type retainedPub struct {
+	data []byte
+	was  string
 }
 
 func evHashOf(ev map[string]any) string {
@@ -133,6 +142,9 @@ func (n *notifySim) deliver(endpoint string, raw []byte) error {
 	if b == bhSlow {
 		phases = 3
 	}
+	if b == bhInstant {
+		phases = 0
+	}
 	for p := 0; p < phases; p++ {
 		if !n.g.park(endpoint, hash, p) {
 			return errors.New("simnet: aborted")
@@ -151,7 +163,11 @@ func (n *notifySim) deliver(endpoint string, raw []byte) error {
 type simPublisher struct{ n *notifySim }
 
 func (p *simPublisher) Publish(channel string, data []byte, _ ...centrifuge.PublishOption) (centrifuge.PublishResult, error) {
-	return centrifuge.PublishResult{}, p.n.deliver("ws:"+channel, data)
+	err := p.n.deliver("ws:"+channel, data)
+	p.n.mu.Lock()
+	p.n.retained = append(p.n.retained, retainedPub{data, string(data)})
+	p.n.mu.Unlock()
+	return centrifuge.PublishResult{}, err
 }
 
 // scripted webhook target (under the real notification.WebhooksService)
@@ -197,7 +213,7 @@ func notifysimExec(r *Run) {
 		endpoints = append(endpoints, fmt.Sprintf("rec%d", i+1))
 	}
 	for _, e := range endpoints {
-		n.behav[e] = t.Pick([]int{50, 20, 20, 10}, "behaviour")
+		n.behav[e] = t.Pick([]int{35, 20, 20, 10, 15}, "behaviour")
 		// the webhooks service is ONE channel that calls its targets one after the other: a target that blocks
 		// for good legitimately starves the targets behind it, so webhook targets are at most slow
 		if strings.HasPrefix(e, "hook:") && n.behav[e] == bhBlock {
@@ -246,10 +262,10 @@ func notifysimExec(r *Run) {
 	// expectations: one event per header the model says was stored, with the fields of that moment
 	type expEv struct {
 		hash, state, prev, merkle, work string
-		height                         int32
-		version                        int32
-		nonce                          uint32
-		ts                             int64
+		height                          int32
+		version                         int32
+		nonce                           uint32
+		ts                              int64
 	}
 	var expected []expEv
 	h.OnStored = func(m *MHeader) {
@@ -322,6 +338,21 @@ func notifysimExec(r *Run) {
 		synctest.Wait()
 		i++
 	}
+	// burst (a sync burst against a channel that is stuck or slow): many headers are stored while no delivery at
+	// all completes; every Add must return (AddFn checks it) whatever the number of deliveries still outstanding,
+	// and afterwards every channel that is not stuck for good gets its events
+	burstDen := 100
+	if r.Tier == "thorough" {
+		burstDen = 25
+	}
+	if r.Opt["burst"] == "1" || t.Chance(1, burstDen, "burst") {
+		nb := []int{70, 130, 300}[t.Pick([]int{70, 25, 5}, "burst-len")]
+		r.Cfg["burst"] = nb
+		r.Probe("notification-burst")
+		h.ExtendBest(nb)
+		r.Step += nb
+		r.Logf("burst: %d headers stored with %d deliveries outstanding", nb, len(n.g.list()))
+	}
 	// drain: everything that is not blocked for good is delivered
 	for releaseOne() {
 	}
@@ -380,6 +411,12 @@ func notifysimExec(r *Run) {
 				b, _ := json.Marshal(ev)
 				r.Fail("C11", "event-fields", shape, "channel %s: event for %s is %s; stored header: height=%d state=%s version=%d merkle=%s prev=%s nonce=%d cumulative work=%s time=%d", e, x.hash[:8], string(b), x.height, x.state, x.version, x.merkle[:8], x.prev[:8], x.nonce, x.work, x.ts)
 			}
+		}
+	}
+	// what was published stays what it was (the publisher owns the bytes it was given)
+	for i, rp := range n.retained {
+		if string(rp.data) != rp.was {
+			r.Fail("C11", "published-data-changed", "ws", "websocket publication #%d was %s when published and reads %s now: the bytes handed to the publisher were overwritten afterwards", i+1, truncate(rp.was, 120), truncate(string(rp.data), 120))
 		}
 	}
 	h.SkipChecks = false
